@@ -26,6 +26,24 @@
 #include "cppParser.h"
 
 /**
+ * Returns the type of the sub-objects that a data member of the indicated
+ * type consists of: this is the type itself, or the element type if it is an
+ * array (of arrays) type, possibly named via a typedef.
+ */
+static CPPType *
+get_member_object_type(CPPType *type) {
+  while (true) {
+    if (type->as_typedef_type() != nullptr) {
+      type = type->as_typedef_type()->_type;
+    } else if (type->as_array_type() != nullptr) {
+      type = type->as_array_type()->_element_type;
+    } else {
+      return type;
+    }
+  }
+}
+
+/**
  *
  */
 void CPPStructType::Base::
@@ -696,7 +714,9 @@ is_copy_constructible(CPPVisibility min_vis) const {
       continue;
     }
 
-    if (!instance->_type->is_copy_constructible()) {
+    // An array member is copied element by element.
+    assert(instance->_type != nullptr);
+    if (!get_member_object_type(instance->_type)->is_copy_constructible()) {
       return false;
     }
   }
@@ -869,9 +889,10 @@ is_destructible(CPPVisibility min_vis) const {
       continue;
     }
 
-    // If the data member is not destructible, no go.
+    // If the data member (or, for an array, its element) is not
+    // destructible, no go.
     assert(instance->_type != nullptr);
-    if (!instance->_type->is_destructible()) {
+    if (!get_member_object_type(instance->_type)->is_destructible()) {
       return false;
     }
   }
